@@ -298,6 +298,14 @@ pub fn run(rep: &mut Report) {
         });
     }
     sweep(rep, "c14.approx", n, |i, out| j_approx(dl[i as usize], out));
+    // order independence (depth-2 operation sequences on one thread): floor / ceil / round of 8 durations by 6 steps
+    {
+        let oa: [i128; 8] = [0, 1, -1, 14 * NS_S, NPC + 14 * NS_S, -NPC / 2, 2 * NPC, 60 * 31_557_600 * NS_S];
+        let os: [i128; 6] = [7 * NS_S, -7 * NS_S, NS_DAY, 7 * NS_DAY, NPC, 3_600 * NS_S];
+        crate::engine::order_pairs(rep, "c14.order", 3 * 8 * 6, |i, out| {
+            j_dur((i / 48) as usize, oa[((i / 6) % 8) as usize], os[(i % 6) as usize], out);
+        });
+    }
     let el: Vec<i128> = dl.iter().copied().filter(|v| v.abs() <= 100 * NPC).collect();
     let ne = el.len() as u64;
     rep.bound("epoch_counts", ne);
